@@ -2,6 +2,7 @@ import ObiVerif.Model.Header
 import ObiVerif.Model.Json
 import ObiVerif.Model.JsonNum
 import ObiVerif.Model.ObiHeader
+import ObiVerif.Model.HeaderFast
 import ObiVerif.Driver.Util
 /-! line protocol for C02 (see the header comment of `harness/c02.go` for the case-line grammar) -/
 namespace ObiVerif.Driver.C02
@@ -351,7 +352,7 @@ def rtRun (fm hp : String) (so si : UInt8) (recs : List InRec) (aug : List (Byte
     if fm = "fastq" then formatFastq so r.id (info goJson r.ann r.defn) r.seq r.qual
     else formatFasta r.id (info goJson r.ann r.defn) r.seq ++ [10])
   let text := texts.flatten
-  let w := "w=" ++ hex text ++ " r="
+  let w := (if fastAgrees fm si recs text then "" else "FAST-MISMATCH ") ++ "w=" ++ hex text ++ " r="
   match parseText fm si text with
   | .error e => w ++ showErr e
   | .ok rs =>
@@ -405,11 +406,175 @@ def concRun (main aug : List String) : String :=
     | _, _, _ => "bad-op"
   | _ => "bad-op"
 
+
+/-! ## fourth pass: `big` — records given by SIZES (title line, identifier, definition, string value, map, sequence and
+quality lines at and above 4096 / 8192 / 65536 / 1 MiB), expanded by the same rules as `c02BigExpand` of the harness and
+run through the linear functions of `Model/HeaderFast.lean` (proved equal to the functions of the theorems in
+`Lemmas/HeaderFast.lean`); results are lengths and FNV-1a digests instead of the bytes -/
+
+open ObiVerif.HeaderFast in
+/-- the fast functions against the functions of the theorems, on the data of a small case (`rt`, `conc`) -/
+def fastAgrees (fm : String) (si : UInt8) (recs : List InRec) (text : Bytes) : Bool :=
+  (if fm = "fastq" then
+     (match parseFastqF si true text, parseFastq si true text with
+      | .ok a, .ok b => a == b
+      | .error a, .error b => a == b
+      | _, _ => false)
+   else
+     (match parseFastaF text, parseFasta text with
+      | .ok a, .ok b => a == b
+      | .error a, .error b => a == b
+      | _, _ => false))
+  && recs.all (fun r =>
+      let i := info goJson r.ann r.defn
+      infoF r.ann r.defn == i && fold60F r.seq == fold60 r.seq
+        && (match decodeObjF i, ObiVerif.Json.decodeObj i with
+            | some a, some b => encodeObjF a == ObiVerif.Json.encodeObj b
+            | none, none => true
+            | _, _ => false))
+
+def alphaOf (a : Char) : Array UInt8 :=
+  if a = 'h' then "a\"\\{}[];=>@:,' b".toUTF8.data
+  else if a = 'g' then "a\"\\{}[];=>@:,'|#".toUTF8.data
+  else "abcdefghijklmnopqrstuvwxyz0123456789_".toUTF8.data
+
+/-- `n` bytes over the alphabet `a`, starting at `seed` (`u`: `é` repeated, an `x` first when `n` is odd) -/
+def pat (a : Char) (seed n : Nat) : Bytes :=
+  if a = 'u' then
+    let odd := n % 2
+    (List.range n).map (fun i => if i < odd then 120 else if (i - odd) % 2 = 0 then 0xC3 else 0xA9)
+  else
+    let al := alphaOf a
+    (List.range n).map (fun i => al[(i + seed) % al.size]!)
+
+def seqPat (seed n : Nat) : Bytes :=
+  let al := "acgtrymkswbdn".toUTF8.data
+  (List.range n).map (fun i => al[(i + seed) % al.size]!)
+
+def qualPat (seed n : Nat) : Bytes := (List.range n).map (fun i => UInt8.ofNat ((i * 7 + seed) % 94))
+
+/-- key number `j` of length `klen`: a prefix over `p` and the decimal digits of `j` (7 at most) -/
+def bigKey (j klen : Nat) : Bytes :=
+  let w := min klen 7
+  let ds := (Nat.toDigits 10 (j % 10 ^ w)).map (fun c => UInt8.ofNat c.toNat)
+  pat 'p' 0 (klen - w) ++ List.replicate (w - ds.length) 48 ++ ds
+
+def alphaLen (w : String) : Option (Char × Nat) :=
+  match w.toList with
+  | a :: r => (String.ofList r).toNat?.map (fun n => (a, n))
+  | [] => none
+
+def JMems.ofListU (l : List (Bytes × JVal)) : JMems :=
+  ObiVerif.Json.sortMems (l.foldr (fun kv m => .cons kv.1 kv.2 m) .nil)
+
+def bigEntry (e : Nat) (w : String) : Option (Bytes × JVal) :=
+  match w.splitOn "." with
+  | ["s", kl, v] => do
+    let (a, n) ← alphaLen v
+    pure (bigKey e (← kl.toNat?), .str (pat a e n))
+  | ["i", kl, v] => do pure (bigKey e (← kl.toNat?), .num (ObiVerif.Json.intLit (← v.toInt?)))
+  | ["mi", kl, nk, mkl] => do
+    let nk ← nk.toNat?
+    let mkl ← mkl.toNat?
+    pure (bigKey e (← kl.toNat?), .obj (JMems.ofListU ((List.range nk).map (fun j =>
+      (bigKey j mkl, .num (ObiVerif.Json.intLit (Int.ofNat (j * 37 % 1000 + 1))))))))
+  | ["ms", kl, nk, mkl, v] => do
+    let nk ← nk.toNat?
+    let mkl ← mkl.toNat?
+    let (a, n) ← alphaLen v
+    pure (bigKey e (← kl.toNat?), .obj (JMems.ofListU ((List.range nk).map (fun j => (bigKey j mkl, .str (pat a j n))))))
+  | ["d", v] => do
+    let (a, n) ← alphaLen v
+    pure (ObiVerif.Json.defKey, .str (pat a e n))
+  | _ => none
+
+def bigAnn (spec : String) : Option (JMems × Option Bytes) :=
+  if spec = "-" then some (.nil, none) else do
+  let ws := spec.splitOn ";"
+  let es ← (ws.zip (List.range ws.length)).mapM (fun p => bigEntry p.2 p.1)
+  let m := JMems.ofListU es
+  pure (m.dropDef, m.getDef)
+
+def bigRecs : Nat → Nat → List String → Option (List InRec × List String)
+  | 0, _, rest => some ([], rest)
+  | n + 1, k, id :: sq :: q :: ann :: rest => do
+    let (a, il) ← alphaLen id
+    let sl ← sq.toNat?
+    let (an, d) ← bigAnn ann
+    let (rs, rest) ← bigRecs n (k + 1) rest
+    pure (⟨pat a k il, seqPat k sl, (if q = "q" then some (qualPat k sl) else none), an, d⟩ :: rs, rest)
+  | _, _, _ => none
+
+def fnv64 (b : Bytes) : UInt64 := b.foldl (fun h c => (h ^^^ c.toUInt64) * 1099511628211) 14695981039346656037
+
+def dg (b : Bytes) : String := toString b.length ++ ":" ++ String.ofList (Nat.toDigits 16 (fnv64 b).toNat)
+
+open ObiVerif.HeaderFast in
+def bigText (fm : String) (so : UInt8) (recs : List (Record JMems)) : Bytes :=
+  (recs.map (fun r =>
+    if fm = "fastq" then formatFastq so r.id (infoF r.ann r.defn) r.seq r.qual
+    else formatFastaF r.id (infoF r.ann r.defn) r.seq ++ [10])).flatten
+
+open ObiVerif.HeaderFast in
+/-- header parser on a record of the chunk parser, annotations as values (fast decoder; `none` = fatal) -/
+def bigHeader (hp : String) (defn : Bytes) : Option (Parsed JMems) :=
+  let lib : Lib JMems := fun s e => (decodeObjF ((defn.drop s).take (e - s))).bind (fun full =>
+    if defsAreStr full && !dupKeysM full then some (full.dropDef, full.getDef) else none)
+  let obi : Bytes → Option (Parsed JMems) := ObiVerif.ObiHeader.parseFastSeqOBIHeader .nil (fun _ => none)
+  if hp = "g" then parseGuessed obi .nil lib defn else parseFastSeqJsonHeader .nil lib defn
+
+open ObiVerif.HeaderFast in
+def bigRead (fm hp : String) (si : UInt8) (text : Bytes) : Except String (List (Record JMems)) :=
+  match (if fm = "fastq" then parseFastqF si true text else parseFastaF text) with
+  | .error e => .error (showErr e)
+  | .ok rs => rs.mapM (fun rc => match bigHeader hp rc.defn with
+      | some p => .ok ⟨rc.id, rc.seq, rc.qual, p.ann, p.defn⟩
+      | none => .error "fatal")
+
+def showDefBig : Option Bytes → String
+  | none => "-"
+  | some [] => "d"
+  | some b => "d" ++ dg b
+
+def showRecBig (r : Record JMems) : String :=
+  let q := match r.qual with
+    | some q => if q = [] then "none" else dg q
+    | none => "none"
+  s!"id={dg r.id} seq={dg r.seq} q={q} ann={digest r.ann} def={showDefBig r.defn}"
+
+def bigRun (ws : List String) : String :=
+  match ws with
+  | mode :: fm :: hp :: so :: si :: n :: rest =>
+    if (fm ≠ "fasta" ∧ fm ≠ "fastq") ∨ (hp ≠ "j" ∧ hp ≠ "g") then "bad-op" else
+    match byte? so, byte? si, n.toNat? with
+    | some so, some si, some n =>
+      match bigRecs n 0 rest with
+      | some (recs, []) =>
+        if recs.any (fun r => !annOK r.ann) then "NOT-ANNOK" else
+        if recs.any (fun r => r.seq = [] ∨ r.id = []) then "bad-op" else
+        let rs : List (Record JMems) := recs.map (fun r => ⟨r.id, r.seq, r.qual, r.ann, r.defn⟩)
+        let t0 := bigText fm so rs
+        if mode = "rt" ∨ mode = "file" then
+          match bigRead fm hp si t0 with
+          | .error e => "w=" ++ dg t0 ++ " r=" ++ e
+          | .ok bs => ("w=" ++ dg t0 ++ " r=" ++ toString bs.length ++ " " ++ " | ".intercalate (bs.map showRecBig)).trimAsciiEnd.toString
+        else if mode.startsWith "cli" then
+          -- obiconvert: chunk parser with the input offset, guessed header parser, writer with offset 33; a second pass
+          -- changes nothing (theorems write_read_write_fixed_*)
+          match bigRead fm "g" so t0 with
+          | .error _ => "w=" ++ dg t0 ++ " t1=fatal"
+          | .ok bs => "w=" ++ dg t0 ++ " t1=" ++ dg (bigText fm 33 bs) ++ " t2=eq"
+        else "bad-op"
+      | _ => "bad-op"
+    | _, _, _ => "bad-op"
+  | _ => "bad-op"
+
 def run (line : String) : String :=
   let (main, aug) := match line.splitOn " + " with
     | [m, a] => (words m, words a)
     | _ => (words line, [])
   match main with
+  | "big" :: rest => bigRun rest
   | "conc" :: rest => concRun rest aug
   | "race" :: "conc" :: rest => concRun rest aug     -- the same case replayed under the race detector
   | ["hdr", h] =>
